@@ -301,18 +301,24 @@ pub fn json_diff(exp: &Value, obs: &Value) -> Option<(String, String, String)> {
 /// Path with list indices and map keys of generated names removed, for
 /// signatures: `/players/[3]/name` -> `/players/[]/name`.
 pub fn path_class(path: &str) -> String {
+    // list indices -> [], keys of data-keyed maps -> {}
+    const MAPS: &[&str] = &["unused_entries", "rules", "server_achievements_dict", "vars"];
     let mut out = String::new();
-    let mut chars = path.chars().peekable();
-    while let Some(c) = chars.next() {
-        if c == '[' {
+    let mut after_map = false;
+    for seg in path.split('/').skip(1) {
+        out.push('/');
+        if after_map {
+            // a data key (may itself contain '/'): everything below it is dropped
+            out.push_str("{}");
+            break;
+        }
+        if seg.starts_with('[') {
             out.push_str("[]");
-            for d in chars.by_ref() {
-                if d == ']' {
-                    break;
-                }
-            }
         } else {
-            out.push(c);
+            out.push_str(seg);
+        }
+        if MAPS.contains(&seg) {
+            after_map = true;
         }
     }
     out
